@@ -136,17 +136,22 @@ type HSOptions struct {
 	MaxOut     int
 	MaxPad     int // non-IO instructions per slot
 	Rsizes     []int
+	ExtraALU   []string // additional two-register opcodes mixed into the padding (e.g. addp, multp)
 	EqualLoops bool // pad every loop to the same length (consumers of a fan-out advance at equal speed)
 	NoFanout   bool
 }
 
-func genALU(t *rapid.T, nreg int, rsize int) string {
-	op := rapid.SampledFrom(ALUOps).Draw(t, "alu")
+func genALU(t *rapid.T, nreg int, rsize int, extra []string) string {
+	ops := ALUOps
+	if len(extra) > 0 {
+		ops = append(append([]string(nil), ALUOps...), extra...)
+	}
+	op := rapid.SampledFrom(ops).Draw(t, "alu")
 	r := func(l string) string { return fmt.Sprintf("r%d", rapid.IntRange(0, nreg-1).Draw(t, l)) }
 	switch op {
 	case "inc", "dec", "clr":
 		return op + " " + r("ra")
-	case "add", "cpy", "mult":
+	case "add", "cpy", "mult", "addp", "multp", "divp":
 		return op + " " + r("ra") + " " + r("rb")
 	case "rset":
 		max := 255
@@ -224,19 +229,19 @@ func HandshakeMachine(t *rapid.T, o HSOptions) BMSpec {
 		// program
 		var prog []string
 		for i, n := 0, rapid.IntRange(0, o.MaxPad).Draw(t, "prologue"); i < n; i++ {
-			prog = append(prog, genALU(t, nreg, s.Rsize))
+			prog = append(prog, genALU(t, nreg, s.Rsize, o.ExtraALU))
 		}
 		loop := len(prog)
 		for k := 0; k < ps.N; k++ {
 			prog = append(prog, fmt.Sprintf("i2rw r%d i%d", rapid.IntRange(0, nreg-1).Draw(t, "rin"), k))
 			for i, n := 0, rapid.IntRange(0, o.MaxPad).Draw(t, "pad"); i < n; i++ {
-				prog = append(prog, genALU(t, nreg, s.Rsize))
+				prog = append(prog, genALU(t, nreg, s.Rsize, o.ExtraALU))
 			}
 		}
 		for k := 0; k < ps.M; k++ {
 			prog = append(prog, fmt.Sprintf("r2owa r%d o%d", rapid.IntRange(0, nreg-1).Draw(t, "rout"), k))
 			for i, n := 0, rapid.IntRange(0, o.MaxPad).Draw(t, "pad"); i < n; i++ {
-				prog = append(prog, genALU(t, nreg, s.Rsize))
+				prog = append(prog, genALU(t, nreg, s.Rsize, o.ExtraALU))
 			}
 		}
 		prog = append(prog, fmt.Sprintf("j %d", loop))
